@@ -355,11 +355,15 @@ def gen_cases(ctx):
   rng = ctx.rng
   yield from ctx.corpus()
   yield from fixed_cases()
-  n_seq = 1500 if ctx.quick else 20000
+  n_seq = 3500 if ctx.quick else 40000
   for i in range(n_seq):
     yield {'kind': 'seq', 'fn_max': rng.choice([128, 128, 0, 1, 2]),
            'threads': [gen_thread(rng, rng.randrange(3, 15))]}
-  n_conc = 120 if ctx.quick else 1500
+  for i in range(100 if ctx.quick else 1500):
+    n = rng.randrange(0, 9)
+    yield {'kind': 'shared', 'fn_max': 128, 'source': rng.choice(['tuple', 'queue']),
+           'items': list(range(100, 100 + n)), 'n_threads': rng.randrange(2, 4), 'per_thread': rng.randrange(1, 6)}
+  n_conc = 250 if ctx.quick else 3000
   for i in range(n_conc):
     yield {'kind': 'conc', 'fn_max': 128,
            'threads': [gen_thread(rng, rng.randrange(3, 10), pure=True, faults=False, shutdown_ok=False)
@@ -831,7 +835,74 @@ def renumber(obs):
   return out
 
 
+def run_shared(case):
+  """Several client threads consume ONE remote iterator / remote queue."""
+  E = _setup()
+  lf, cu = E['lf'], E['cu']
+  lf.clear_cache()
+  lf.clear_object()
+  lib.reset()
+  rem = Remote(case, 'threaded')
+  try:
+    items = tuple(case['items'])
+    if case['source'] == 'tuple':
+      h = rem.client.get_result(lf.trace(items, lazy_result=True))
+      it = iter(h)
+      step = lambda: next(it)
+    else:
+      h = rem.client.get_result(lf.trace(lib14.make_queue)(list(items), None, None, lazy_result_=True))
+      q = cu.RemoteIteratorQueue(h, name='c14')
+      step = q.get
+    res = [[] for _ in range(case['n_threads'])]
+
+    def work(i):
+      for _ in range(case['per_thread']):
+        try:
+          res[i].append({'ok': step()})
+        except Exception as e:  # pylint: disable=broad-except
+          res[i].append({'err': c14_err(e)})
+    ts = [threading.Thread(target=work, args=(i,), daemon=True) for i in range(len(res))]
+    for t in ts:
+      t.start()
+    for t in ts:
+      t.join(60)
+    return {'shared': res, 'hung': any(t.is_alive() for t in ts), 'remote': [], 'local': []}
+  finally:
+    rem.close()
+    lf.clear_cache()
+    lf.clear_object()
+
+
+def oracle_shared(case, obs):
+  """Exactly the underlying elements, each once, in order within every consumer; exhaustion is signalled to every
+  call that finds nothing left; no value after a consumer saw the end."""
+  if obs.get('hung'):
+    return 'a consumer thread did not finish (hang)'
+  items = case['items']
+  got = []
+  for i, seq in enumerate(obs['shared']):
+    vals = [r['ok'] for r in seq if 'ok' in r]
+    if any('err' in r and r['err'] != 'StopIteration' for r in seq):
+      return f'consumer {i}: unexpected exception in {seq}'
+    if vals != sorted(vals):
+      return f'consumer {i} received {vals}: not in the order of the underlying sequence'
+    ended = False
+    for r in seq:
+      if 'err' in r:
+        ended = True
+      elif ended:
+        return f'consumer {i}: a value after StopIteration: {seq}'
+    got += vals
+  calls = case['n_threads'] * case['per_thread']
+  if sorted(got) != sorted(items)[:len(got)] or len(got) != min(len(items), calls):
+    return (f'consumers received {sorted(got)} with {calls} calls; the underlying sequence is {items} '
+            f'(each element exactly once, none invented, none lost)')
+  return None
+
+
 def run_impl(case):
+  if case['kind'] == 'shared':
+    return run_shared(case)
   E = _setup()
   lf = E['lf']
   fn_cache = lf.LazyFn.result_.cache_info.__self__
@@ -886,6 +957,10 @@ def run_impl(case):
 # ----------------------------------------------------------------------------- model
 
 def model_requests(case):
+  if case['kind'] == 'shared':
+    # any serialisation of the calls is a C14_iter / C14_iter_queue run; the sequential behaviour is tied by the
+    # 'seq' cases, the concurrent one is decided by the oracle
+    return [dict(model='remote', fn_max=128, obj_max=1024, threads=[])]
   return [dict(model='remote', fn_max=case['fn_max'], obj_max=1024, threads=case['threads'])]
 
 
@@ -910,6 +985,8 @@ def _same_exc(a, b, lenient_msg):
 
 
 def compare(impl, model):
+  if 'shared' in impl:
+    return None
   if impl.get('hung'):
     return 'a client thread did not finish'
   for ti, (a, b) in enumerate(zip(impl['remote'], model['remote'])):
@@ -1076,6 +1153,12 @@ def _failures(case, obs):
 
 
 def oracle(case, obs):
+  if case['kind'] == 'shared':
+    return oracle_shared(case, obs)
+  return _oracle_main(case, obs)
+
+
+def _oracle_main(case, obs):
   """First failure that is not an instance of a known finding class, else the first failure."""
   first = None
   for w in _failures(case, obs):
@@ -1137,6 +1220,14 @@ def collect(case, obs):
   """Coverage is measured on the case and on the *reference* (local) pass, so that a change of the code under
   test cannot hide a branch from the generator-quality gate; results of the remote pass are histogrammed only."""
   _stat('kind', case['kind'])
+  if case['kind'] == 'shared':
+    _stat('shared source', case['source'])
+    _stat('shared consumers', case['n_threads'])
+    _stat('branch', 'shared iterator over-consumed' if case['n_threads'] * case['per_thread'] > len(case['items'])
+          else 'shared iterator partly consumed')
+    if oracle_shared(case, obs):
+      STATS['failed'] = {'1': 1}
+    return
   _stat('threads', len(case['threads']))
   if not STATS.get('failed'):
     for w in _failures(case, obs):
@@ -1188,6 +1279,8 @@ def collect(case, obs):
 
 def nontrivial(case, obs):
   collect(case, obs)
+  if case['kind'] == 'shared':
+    return len(case['items']) >= 2
   n_eval, interesting = 0, False
   for ops, loc in zip(case['threads'], obs['local']):
     for op, l in zip(ops, loc):
@@ -1230,6 +1323,8 @@ def finding(case, what):
 # ----------------------------------------------------------------------------- search helpers
 
 def neighbours(case, rng):
+  if case['kind'] == 'shared':
+    return
   for t in range(len(case['threads'])):
     for i in range(len(case['threads'][t])):
       c = _drop(case, t, i)
@@ -1271,6 +1366,8 @@ def _drop(case, t, i):
 
 
 def shrink(case, fails):
+  if case['kind'] == 'shared':
+    return case
   cur = case
   changed = True
   while changed:
